@@ -365,11 +365,11 @@ Inductive verdict := VYes | VNo | VUnjudged.
 Definition eps : Q := 1 # 1000000000.
 Definition qnear (q b : Q) : bool := Qle_bool (b * (1 - eps)) q && Qle_bool q (b * (1 + eps)).
 
-(* float64 rounding allowance for temp*(1-jitter) *)
+(* float64 rounding allowances for temp*(1-jitter) and 2*jitter*temp *)
 Definition tol_a (e : eparams) (attempt : Z) : Z :=
-  qtrunc (Qabs (exp_temp e attempt) * (Qabs (1 - e_jitter e) + Qabs (e_jitter e)) * eps)%Q + 2.
+  Z.max 0 (qtrunc (Qabs (exp_temp e attempt) * (Qabs (1 - e_jitter e) + Qabs (e_jitter e)) * eps)%Q) + 2.
 Definition tol_n (e : eparams) (attempt : Z) : Z :=
-  qtrunc (Qabs (exp_n e attempt) * eps)%Q + 2.
+  Z.max 0 (qtrunc (Qabs (exp_n e attempt) * eps)%Q) + 2.
 
 Inductive eclass := ECPanic | ECRange (lo hi : Z) | ECUnjudged.
 
@@ -378,22 +378,20 @@ Definition exp_class (guarded : bool) (e : eparams) (attempt : Z) (o : outcome) 
   let ra := retry_after_secs o in
   if ra >? 0 then let v := wrap64 (ra * 1000000000) in ECRange v v
   else
-    let qa := exp_a e attempt in
-    let qn := exp_n e attempt in
+    let a := qtrunc (exp_a e attempt) in
+    let n := qtrunc (exp_n e attempt) in
+    let ta := tol_a e attempt in
+    let tn := tol_n e attempt in
     (* the jitter bound is positive iff the float64 product is >= 1; a product of 2^63 or
        more converts to an implementation-specific value *)
-    if qnear qn 1 || Qle_bool (inject_Z two63 * (1 - eps)) qn then ECUnjudged
-    else
-      let a := qtrunc qa in
-      let n := qtrunc qn in
-      let ta := tol_a e attempt in
-      let tn := tol_n e attempt in
-      if n <=? 0 then
-        if guarded then
-          (if (- two63 + ta <? a) && (a + ta <? two63) then ECRange (a - ta) (a + ta) else ECUnjudged)
-        else ECPanic
-      else if (- two63 + ta <? a) && (a + n + ta + tn <? two63) then ECRange (a - ta) (a + n + ta + tn)
-      else ECUnjudged.
+    if qnear (exp_n e attempt) 1 then ECUnjudged
+    else if two63 - tn <=? n then ECUnjudged
+    else if n <=? 0 then
+      if guarded then
+        (if (- two63 + ta <? a) && (a + ta <? two63) then ECRange (a - ta) (a + ta) else ECUnjudged)
+      else ECPanic
+    else if (- two63 + ta <? a) && (a + n + ta + tn <? two63) then ECRange (a - ta) (a + n + ta + tn)
+    else ECUnjudged.
 
 Inductive obs_decision := ODStop | ODFail | ODPanic | ODWait (d : Z).
 
